@@ -12,6 +12,7 @@ pub mod c10;
 pub mod c13;
 pub mod c14;
 pub mod c16;
+pub mod c19;
 pub mod c15;
 
 pub struct Plan {
@@ -36,6 +37,7 @@ pub fn meta(id: &str) -> Option<Meta> {
         "C14" => c14::meta(),
         "C15" => c15::meta(),
         "C16" => c16::meta(),
+        "C19" => c19::meta(),
         _ => return None,
     })
 }
@@ -63,6 +65,7 @@ pub fn run_worker(id: &str, ctx: &Ctx, rep: &mut Report) {
         "C14" => c14::run(ctx, rep),
         "C15" => c15::run(ctx, rep),
         "C16" => c16::run(ctx, rep),
+        "C19" => c19::run(ctx, rep),
         _ => rep.machinery(format!("no engine for {id}")),
     }
 }
@@ -71,6 +74,12 @@ pub fn run_worker(id: &str, ctx: &Ctx, rep: &mut Report) {
 pub fn run_parent(id: &str, tier: Tier, seed: u64) -> Report {
     let p = plan(id, tier);
     match id {
+        "C19" => {
+            // subject files are produced once so that every shard damages the same bytes
+            let dir = crate::scratch::path("c19subjects");
+            c19::prepare(tier, seed, &dir);
+            crate::explore::run_sharded(id, &dir, tier, seed, p.cap_s, p.shards, None)
+        }
         _ => crate::explore::run_sharded(id, "", tier, seed, p.cap_s, p.shards, None),
     }
 }
@@ -85,6 +94,7 @@ pub fn replay(id: &str, case: &serde_json::Value) -> Result<Option<String>, Stri
         "C13" => c13::replay(case),
         "C14" => c14::replay(case),
         "C16" => c16::replay(case),
+        "C19" => c19::replay(case),
         _ => Err(format!("engine {id} has no single-case replay; rerun the check")),
     }
 }
